@@ -19,7 +19,8 @@ PROP = "C18"
 
 CONDS = ["scalar_poly_n0", "scalar_poly_n1", "scalar_poly_n2", "scalar_poly_n3", "mixed_components_k0",
          "mixed_components_k1", "mixed_components_k2", "mixed_components_k3", "symmetric_components", "symmetric_in_mixed", "mixed_first_symmetric_last",
-         "piola_on_manifold", "enriched_sub_element", "nested_mixed", "arguments_enriched", "piola_flat_then_manifold"]
+         "piola_on_manifold", "enriched_sub_element", "nested_mixed", "arguments_enriched", "piola_flat_then_manifold",
+         "wrappers", "compound", "piecewise", "quadrilateral_cells", "curved_geometry"]
 
 
 def run(spec):
@@ -43,11 +44,12 @@ def main():
     rc = harness.finish(
         PROP, tier, "proof", results, t0,
         functions=["ufl.algorithms.estimate_degrees.SumDegreeEstimator.{coefficient,argument,spatial_coordinate,"
-                   "constant,indexed,sum,product,power,division,grad(_reduce_degree),index_sum,component_tensor,"
-                   "list_tensor,_add_degrees,_max_degrees}", "ufl.corealg.multifunction.MultiFunction.__call__"],
+                   "constant,indexed,sum,product,power,division,grad/div/curl/nabla_grad/nabla_div(_reduce_degree),index_sum,"
+                   "component_tensor,list_tensor,inner,dot,outer,cross,positive_restricted,negative_restricted,conj,real,imag,"
+                   "variable,transposed,condition,conditional,min_value,max_value,geometric_quantity,_add_degrees,_max_degrees}", "ufl.corealg.multifunction.MultiFunction.__call__"],
         bounds={"degrees": "0..4 (two symbolic degrees) / 0..3 (three symbolic degrees) / 0..5 for the enriched element", "exponent (concrete loop)": "0..3", "component index (concrete loop)": "all", "skeletons": CONDS,
-                "cells": "triangle in R^2, triangle in R^3 (Piola)", "outside": "non-polynomial operators (heuristics by "
-                "design), quadrilateral/hexahedron (tuple degrees), map_expr_dags' interning cache (the harness drives "
+                "cells": "triangle in R^2, triangle in R^3 (Piola, cross), quadrilateral (per-direction degree: derivatives do not lower it), triangle mesh with coordinate degree 1..4", "outside": "non-polynomial operators (heuristics by "
+                "design), tuple-valued degrees of TensorProductCell elements, detJ/normals of non-affine meshes (heuristic by design), map_expr_dags' interning cache (the harness drives "
                 "the post-order itself)"},
         assumptions=["true degree = degree for generic coefficient data (no cancellation), grad lowers the degree by "
                      "one on simplices (zero polynomial counted as degree 0)",
